@@ -38,7 +38,8 @@ pub const DEF: PropDef = PropDef {
 table-driven gamma/zeta_3 reads on self-synchronising random data, skips, position queries), writer operations (writes, unaries, flush) and \
 copies in both directions (reader.copy_to(writer, n), writer.copy_from(reader, n)). Small-scope part, enumerated completely per pairing \
 (reader {buffered u8..u64, unbuffered} x writer word u8..u128): every source buffer state (incl. more than one word buffered after a look-ahead \
-refill, and the state left by a table-driven read) x destination fill levels x every n in 0..=4*max(Wr,Ww)+3 x both directions, each followed \
+refill, and the state left by a table-driven read) x destination fill levels (incl. an empty buffer holding stale bits after a full word, \
+a flush or a unary code ending on the boundary) x every n in 0..=4*max(Wr,Ww)+3 x both directions, each followed \
 by continuation operations on both streams (position query, table-driven code reads, a 64-bit read, a second copy, a write, flush). Random part: \
 proptest byte strings decoded into histories with several copies (n up to 5000). Oracle: bit model: destination bytes == model, source \
 position advanced by exactly n, every continuation result == model. The whole check runs in builds with the optimised copy paths compiled in \
@@ -51,6 +52,7 @@ case hashes.",
     ],
     run,
     replay,
+    from_bytes: Some(from_bytes),
 };
 
 const FREE: [Code; 2] = [Code::Gamma, Code::Zeta(3)];
@@ -281,12 +283,18 @@ fn run(ctx: &Ctx, env: &Env) -> Stats {
                     let nmax = 4 * rw.max(wb) + 3;
                     let img = Img::Pattern { pat: Pat::Random, bits: (2 * nmax + 6 * rw + 700) as u32, seed: 77 + ctx.seed, zero_from: None, one_at: None };
                     let ns = n_states(r);
-                    let sstep = if ctx.quick() { if ns > 64 { 7 } else if ns > 32 { 3 } else { 2 } } else { 1 };
+                    let sstep = if ctx.quick() { if ns > 64 { 3 } else if ns > 32 { 2 } else { 1 } } else { 1 };
                     let mut states: Vec<Vec<Step>> = (0..ns).step_by(sstep).chain([ns - 1, rw.min(ns - 1)]).map(|s| state_prefix(r, s).0.into_iter().map(Step::R).collect()).collect();
                     // the state left by table-driven reads (look-ahead refill followed by a partial skip)
                     states.push(vec![Step::R(ROp::Bits(3)), Step::R(ROp::Code(Call::Gamma(Tb::On))), Step::R(ROp::Code(Call::Zeta3(Tb::On)))]);
                     states.push(vec![Step::R(ROp::Code(Call::Zeta3(Tb::On))), Step::R(ROp::Peek(r.peek_max() as u8))]);
                     let fills: Vec<usize> = if ctx.quick() { vec![0, 1, wb / 2 + 1, wb - 1] } else { (0..wb).collect() };
+                    // destination states in which the buffer is empty but holds stale bits
+                    let stale: Vec<Vec<Step>> = vec![
+                        fill_steps(wb),
+                        vec![Step::W(WOp::Bits { v: 0x2B, n: 6 }), Step::W(WOp::Flush)],
+                        vec![Step::W(WOp::Bits { v: 0x5, n: 3 }), Step::W(WOp::Unary(wb as u64 - 4))],
+                    ];
                     let nstep = if ctx.quick() && nmax > 300 { 3 } else { 1 };
                     let cont: Vec<Step> = vec![
                         Step::R(ROp::Pos),
@@ -308,6 +316,20 @@ fn run(ctx: &Ctx, env: &Env) -> Stats {
                     ];
                     let mut k = 0usize;
                     for st in &states {
+                        for pre_w in &stale {
+                            for n in [0usize, 1, wb - 1, wb, wb + 1, 2 * wb, 2 * wb + 3, 64, 65] {
+                                for dir in 0..2 {
+                                    k += 1;
+                                    let mut steps = st.clone();
+                                    steps.extend(pre_w.iter().cloned());
+                                    steps.push(if dir == 0 { Step::CopyTo(n as u64) } else { Step::CopyFrom(n as u64) });
+                                    steps.extend(cont.iter().cloned());
+                                    let wbk = [WBackend::VecBorrowed, WBackend::Recording, WBackend::Slice][k % 3];
+                                    let rbk = [RBackend::InfOwned, RBackend::Strict, RBackend::AdapterCursor][(k / 3) % 3];
+                                    part.check(&Case { rcfg: RCfg::new(e, r, rbk), wcfg: WCfg::new(e, w, wbk), img: img.clone(), steps }, &f);
+                                }
+                            }
+                        }
                         for &fill in &fills {
                             for n in (0..=nmax).step_by(nstep).chain([64, 65, rw, rw + 1, wb, wb + 1, nmax]) {
                                 for dir in 0..2 {
@@ -328,7 +350,7 @@ fn run(ctx: &Ctx, env: &Env) -> Stats {
             }
         }
     }
-    let n_rand = ctx.t(10_000u64, 400_000);
+    let n_rand = ctx.t(25_000u64, 800_000);
     for j in 0..16 {
         jobs.push(Box::new(move |ctx: &Ctx| {
             let mut part = Part::new(ctx, format!("random/hist/{}", j), "proptest byte strings decoded into copy histories", false);
@@ -377,4 +399,10 @@ pub fn gen_case(s: &mut Src) -> Case {
 fn replay(v: &serde_json::Value, env: &Env) -> CheckResult {
     let c: Case = serde_json::from_value(v.clone()).map_err(|e| Failure::new("replay/parse", e.to_string()))?;
     run_guarded(&c, &|c: &Case| check_case(c, env))
+}
+
+fn from_bytes(data: &[u8], env: &Env) -> (serde_json::Value, CheckResult) {
+    let c = gen_case(&mut Src::new(data));
+    let r = run_guarded(&c, &|c| check_case(c, env));
+    (serde_json::to_value(&c).unwrap_or(serde_json::Value::Null), r)
 }
